@@ -1,4 +1,4 @@
-import Xsm.Proofs.ActorsMisc
+import Xsm.Proofs.ActorsReg
 /-!
 Proofs of the operation-level statements of C15 (spawn, ordered delivery, cancel, supersede, stopChild).
 -/
@@ -54,13 +54,97 @@ theorem spawnCore_spec (s : Sys) (p : Nat) (key : String) (eid sid : Option Stri
     exact ⟨get_upd_proj (·.status) t p v _ (fun _ => rfl), get_upd_proj (·.received) t p v _ (fun _ => rfl),
       get_upd_proj (·.inbox) t p v _ (fun _ => rfl)⟩
 
-theorem spawn_actors (s : Sys) (p : Nat) (key : String) (eid sid : Option String) (b : Bool) :
-    (spawn s p key eid sid b).actors = (spawnCore s p key eid sid b).actors ∧
-    (spawn s p key eid sid b).registry = (spawnCore s p key eid sid b).registry := by
-  unfold spawn
+theorem spawnFresh_actors (s : Sys) (p : Nat) (key : String) (eid sid : Option String) (b : Bool) :
+    (spawnFresh s p key eid sid b).actors = (spawnCore s p key eid sid b).actors ∧
+    (spawnFresh s p key eid sid b).registry = (spawnCore s p key eid sid b).registry := by
+  unfold spawnFresh
   split
   · exact ⟨rfl, rfl⟩
   · exact ⟨rfl, rfl⟩
+
+/-! ### what `stop()` never touches: the engine, the id counter, the number of actors, every id and parent link -/
+
+def Static (s s' : Sys) : Prop :=
+  s'.flavor = s.flavor ∧ s'.eager = s.eager ∧ s'.fresh = s.fresh ∧ s'.actors.length = s.actors.length ∧
+  ∀ u, (s'.get u).id = (s.get u).id ∧ (s'.get u).parent = (s.get u).parent
+
+theorem Static.refl (s : Sys) : Static s s := ⟨rfl, rfl, rfl, rfl, fun _ => ⟨rfl, rfl⟩⟩
+
+theorem Static.trans {a b c : Sys} (h1 : Static a b) (h2 : Static b c) : Static a c :=
+  ⟨h2.1.trans h1.1, h2.2.1.trans h1.2.1, h2.2.2.1.trans h1.2.2.1, h2.2.2.2.1.trans h1.2.2.2.1,
+    fun u => ⟨(h2.2.2.2.2 u).1.trans (h1.2.2.2.2 u).1, (h2.2.2.2.2 u).2.trans (h1.2.2.2.2 u).2⟩⟩
+
+theorem static_upd (s : Sys) (u : Nat) (f : Actor → Actor) (h : ∀ a, (f a).id = a.id) (h' : ∀ a, (f a).parent = a.parent) :
+    Static s (s.upd u f) :=
+  ⟨rfl, rfl, rfl, n_upd s u f, fun v => ⟨get_upd_proj (·.id) s u v f h, get_upd_proj (·.parent) s u v f h'⟩⟩
+
+theorem static_of_actors_eq {s s' : Sys} (h1 : s'.flavor = s.flavor) (h2 : s'.eager = s.eager) (h3 : s'.fresh = s.fresh)
+    (ha : s'.actors = s.actors) : Static s s' :=
+  ⟨h1, h2, h3, by rw [ha], fun u => by rw [get_congr ha u]; exact ⟨rfl, rfl⟩⟩
+
+theorem static_drainAll (busy : Option Nat) (s : Sys) : Static s (drainAll busy s) := by
+  refine ⟨rfl, rfl, rfl, n_drainAll busy s, fun u => ?_⟩
+  rw [get_drainAll]; unfold drainActor
+  split
+  · exact ⟨rfl, rfl⟩
+  · split
+    · exact ⟨rfl, rfl⟩
+    · split <;> exact ⟨rfl, rfl⟩
+
+theorem static_foldl {β : Type} (F : Sys → β → Sys) (hF : ∀ s x, Static s (F s x)) (l : List β) (s : Sys) :
+    Static s (l.foldl F s) := by
+  induction l generalizing s with
+  | nil => exact Static.refl s
+  | cons x r ih => exact (hF s x).trans (ih (F s x))
+
+theorem static_stopTail (busy : Option Nat) (s : Sys) (x : Nat) : Static s (stopTail busy s x) := by
+  unfold stopTail
+  split
+  · exact (static_upd s x (fun a => { a with sends := [] }) (fun _ => rfl) (fun _ => rfl)).trans (static_of_actors_eq rfl rfl rfl rfl)
+  · have h1 : Static s (stopTasks busy s x) := by
+      unfold stopTasks
+      split
+      · exact Static.trans (b := killTasks s x) (static_of_actors_eq rfl rfl rfl rfl) (static_drainAll busy _)
+      · exact Static.refl s
+    refine h1.trans ?_
+    unfold stopLoop
+    split
+    · exact (static_upd _ x (fun a => { a with alive := false }) (fun _ => rfl) (fun _ => rfl)).trans (static_drainAll busy _)
+    · exact Static.refl _
+
+theorem static_stopA (busy : Option Nat) (fuel : Nat) (s : Sys) (x : Nat) : Static s (stopA busy fuel s x) := by
+  induction fuel generalizing s x with
+  | zero => exact Static.refl s
+  | succ fuel ih =>
+    unfold stopA
+    split
+    · have h1 : Static s (unregister (markStopped s x) x) :=
+        (static_upd s x (fun a => { a with status := .stopped }) (fun _ => rfl) (fun _ => rfl)).trans
+          (static_of_actors_eq (s' := unregister (markStopped s x) x) rfl rfl rfl rfl)
+      have h2 := static_foldl (fun acc (kv : String × Nat) => stopA busy fuel acc kv.2) (fun acc kv => ih acc kv.2)
+        (s.get x).kids (unregister (markStopped s x) x)
+      exact ((h1.trans h2).trans (static_upd _ x (fun a => { a with kids := [] }) (fun _ => rfl) (fun _ => rfl))).trans (static_stopTail busy _ x)
+    · exact Static.refl s
+
+theorem static_evict (busy : Option Nat) (s : Sys) (p : Nat) (cid : String) : Static s (evict busy s p cid) := by
+  unfold evict
+  split
+  · exact (static_upd s p (fun a => { a with kids := derase cid a.kids }) (fun _ => rfl) (fun _ => rfl)).trans (static_stopA busy _ _ _)
+  · exact Static.refl s
+
+theorem evict_free (busy : Option Nat) (s : Sys) (p : Nat) (cid : String) (h : dlookup cid (s.get p).kids = none) :
+    evict busy s p cid = s := by
+  unfold evict; rw [h]
+
+/-- a spawn is a spawn on a free id in the state the eviction leaves, which has the same ids and counters -/
+theorem spawn_eq (busy : Option Nat) (s : Sys) (p : Nat) (key : String) (eid sid : Option String) (b : Bool) :
+    ∃ e : Sys, Static s e ∧ e = evict busy s p (mkId (s.get p).id key eid s.fresh) ∧
+      spawn busy s p key eid sid b = spawnFresh e p key eid sid b ∧
+      mkId (e.get p).id key eid e.fresh = mkId (s.get p).id key eid s.fresh ∧ startedAtSpawn e b = startedAtSpawn s b := by
+  have hst := static_evict busy s p (mkId (s.get p).id key eid s.fresh)
+  refine ⟨_, hst, rfl, rfl, ?_, ?_⟩
+  · rw [(hst.2.2.2.2 p).1, hst.2.2.1]
+  · unfold startedAtSpawn; rw [hst.1, hst.2.1]
 
 /-! ### ordered delivery -/
 
@@ -262,5 +346,150 @@ theorem inv_congr {s t : Sys} (ha : t.actors = s.actors) (hf : t.flavor = s.flav
     | self x => exact Desc.self _
     | @kid y d kv hkv _ ih => exact Desc.kid kv (by rw [hg]; exact hkv) ih
   · unfold R at *; rw [hg]; exact h
+
+/-! ### F51: a spawn under an id in use -/
+
+/-- an update of one actor that keeps status and run loop and can only remove children -/
+structure Shrinks (f : Actor → Actor) : Prop where
+  status : ∀ a, (f a).status = a.status
+  alive : ∀ a, (f a).alive = a.alive
+  parent : ∀ a, (f a).parent = a.parent
+  kids : ∀ a kv, kv ∈ (f a).kids → kv ∈ a.kids
+
+theorem shrinks_kids_sub {f : Actor → Actor} (hf : Shrinks f) (s : Sys) (p v : Nat) :
+    ∀ kv ∈ ((s.upd p f).get v).kids, kv ∈ (s.get v).kids := by
+  intro kv hkv
+  rw [get_upd] at hkv
+  split at hkv
+  · next hc => rw [hc.1]; exact hf.kids _ kv hkv
+  · exact hkv
+
+theorem inv_upd_shrinks {f : Actor → Actor} (hf : Shrinks f) {s : Sys} (p : Nat) (hwf : WF s) (hset : Settled s) (htidy : Tidy s) :
+    WF (s.upd p f) ∧ Settled (s.upd p f) ∧ Tidy (s.upd p f) := by
+  have hst : ∀ v, ((s.upd p f).get v).status = (s.get v).status := fun v => get_upd_proj (·.status) s p v f hf.status
+  have hal : ∀ v, ((s.upd p f).get v).alive = (s.get v).alive := fun v => get_upd_proj (·.alive) s p v f hf.alive
+  have hD : ∀ v, Dead (s.upd p f) v ↔ Dead s v := by
+    intro v; unfold Dead; rw [hst, hal]; rfl
+  refine ⟨fun u kv hkv => ?_, fun u hu => ?_, fun u hd => ?_⟩
+  · have := hwf u kv (shrinks_kids_sub hf s p u kv hkv)
+    exact ⟨this.1, by rw [n_upd]; exact this.2⟩
+  · rw [n_upd] at hu
+    rcases hset u hu with h | h
+    · left; unfold R at *; rw [hst]; exact h
+    · right; exact (hD u).mpr h
+  · have h0 := htidy u ((hD u).mp hd)
+    cases hk : ((s.upd p f).get u).kids with
+    | nil => rfl
+    | cons kv r =>
+      have := shrinks_kids_sub hf s p u kv (by rw [hk]; exact List.mem_cons_self ..)
+      rw [h0] at this; cases this
+
+theorem desc_upd_above {s : Sys} (hwf : WF s) (p : Nat) (f : Actor → Actor) {y d : Nat} (h : Desc s y d) :
+    p < y → Desc (s.upd p f) y d := by
+  induction h with
+  | self x => intro _; exact Desc.self _
+  | @kid y d kv hkv _ ih =>
+    intro hpy
+    have hne : y ≠ p := by omega
+    have hc := hwf y kv hkv
+    exact Desc.kid kv (by rw [get_upd_ne s f hne]; exact hkv) (ih (by omega))
+
+theorem desc_bounds {s : Sys} (hwf : WF s) {y d : Nat} (h : Desc s y d) : y ≤ d ∧ (y < s.actors.length → d < s.actors.length) := by
+  induction h with
+  | self x => exact ⟨Nat.le_refl _, id⟩
+  | @kid y d kv hkv _ ih =>
+    have hc := hwf y kv hkv
+    exact ⟨by omega, fun _ => ih.2 hc.2⟩
+
+theorem shrinks_popKid (cid : String) : Shrinks (fun a => { a with kids := derase cid a.kids }) :=
+  ⟨fun _ => rfl, fun _ => rfl, fun _ => rfl, fun _ _ h => mem_derase h⟩
+
+theorem spawnCore_kids (s : Sys) (p : Nat) (key : String) (eid sid : Option String) (b : Bool) (hp : p < s.actors.length) :
+    ((spawnCore s p key eid sid b).get p).kids = dinsert (mkId (s.get p).id key eid s.fresh) s.actors.length (s.get p).kids := by
+  unfold spawnCore linkChild
+  generalize hc : newActor s p (mkId (s.get p).id key eid s.fresh) key (startedAtSpawn s b) = child
+  generalize ht : register (addActor s child (freshAfter s eid)) sid s.actors.length = t
+  have hta : t.actors = s.actors ++ [child] := by rw [← ht, register_actors]; rfl
+  have hpt : p < t.actors.length := by rw [hta]; simp; omega
+  have hgt : t.get p = s.get p := by simp [Sys.get, hta, List.getElem?_append_left hp]
+  rw [get_upd_self t _ hpt, hgt]
+
+/-- what a spawn under an id that `old` still holds guarantees (from an observation point) -/
+theorem respawn_spec (busy : Option Nat) (s : Sys) (p : Nat) (key : String) (eid sid : Option String) (b : Bool) (old : Nat)
+    (hwf : WF s) (hset : Settled s) (htidy : Tidy s) (hp : p < s.actors.length)
+    (hold : dlookup (mkId (s.get p).id key eid s.fresh) (s.get p).kids = some old) :
+    (∀ d, Desc s old d → Dead (spawn busy s p key eid sid b) d ∧ ((spawn busy s p key eid sid b).get d).kids = []) ∧
+    (∀ u, u < s.actors.length → R (spawn busy s p key eid sid b) u → R s u) ∧
+    (∀ u, u < s.actors.length → u ≠ p → R (spawn busy s p key eid sid b) u →
+      ((spawn busy s p key eid sid b).get u).kids = (s.get u).kids) ∧
+    (R (spawn busy s p key eid sid b) p → ((spawn busy s p key eid sid b).get p).kids =
+      dinsert (mkId (s.get p).id key eid s.fresh) s.actors.length (derase (mkId (s.get p).id key eid s.fresh) (s.get p).kids)) := by
+  generalize hcid : mkId (s.get p).id key eid s.fresh = cid at hold ⊢
+  have hmem : (cid, old) ∈ (s.get p).kids := dlookup_mem hold
+  have hpo := hwf p (cid, old) hmem
+  -- the three stages
+  have hs1 : popKid s p cid = s.upd p (fun a => { a with kids := derase cid a.kids }) := rfl
+  have ⟨w1, w2, w3⟩ := inv_upd_shrinks (shrinks_popKid cid) p hwf hset htidy
+  rw [← hs1] at w1 w2 w3
+  have hn1 : (popKid s p cid).actors.length = s.actors.length := n_upd s p _
+  have hst1 : ∀ v, ((popKid s p cid).get v).status = (s.get v).status := fun v => get_upd_proj (·.status) s p v _ (fun _ => rfl)
+  have ⟨hdead, hm, hc⟩ : Dead (stop busy (popKid s p cid) old) old ∧ Mono (popKid s p cid) (stop busy (popKid s p cid) old) ∧
+      DC (popKid s p cid) (stop busy (popKid s p cid) old) := by
+    rcases w2 old (by rw [hn1]; exact hpo.2) with h | h
+    · exact stop_spec busy _ old w1 (by rw [hn1]; exact hpo.2) h
+    · have hnr : ¬ R (popKid s p cid) old := by unfold R; rw [h.1]; decide
+      have : stop busy (popKid s p cid) old = popKid s p cid := stopA_not_running busy _ _ old hnr
+      rw [this]; exact ⟨h, Mono.refl _, DC.refl _⟩
+  have heq : spawn busy s p key eid sid b = spawnFresh (stop busy (popKid s p cid) old) p key eid sid b := by
+    unfold spawn evict; rw [hcid, hold]
+  generalize ht : stop busy (popKid s p cid) old = t at hdead hm hc heq
+  have hnt : t.actors.length = s.actors.length := hm.n.trans hn1
+  have hpt : p < t.actors.length := by rw [hnt]; exact hp
+  have hstat : Static s t := by
+    rw [← ht]
+    exact (static_upd s p (fun a => { a with kids := derase cid a.kids }) (fun _ => rfl) (fun _ => rfl)).trans (static_stopA busy _ _ _)
+  have hcid' : mkId (t.get p).id key eid t.fresh = cid := by rw [(hstat.2.2.2.2 p).1, hstat.2.2.1]; exact hcid
+  have ⟨ha, _⟩ := spawnFresh_actors t p key eid sid b
+  have hg : ∀ u, (spawn busy s p key eid sid b).get u = (spawnCore t p key eid sid b).get u := by
+    intro u; rw [heq]; exact get_congr ha u
+  have hfl : (spawn busy s p key eid sid b).flavor = t.flavor := by rw [heq]; exact (quiet_spawnFresh t p key eid sid b).1
+  have ⟨_, _, _, _, _, c6, c7⟩ := spawnCore_spec t p key eid sid b hpt
+  have hrun : ∀ u, u < s.actors.length → R (spawn busy s p key eid sid b) u → R t u := by
+    intro u hu h; unfold R at *; rw [hg, (c7 u (by rw [hnt]; exact hu)).1] at h; exact h
+  refine ⟨fun d hd => ?_, fun u hu h => ?_, fun u hu hne h => ?_, fun h => ?_⟩
+  · have hb := desc_bounds hwf hd
+    have hd1 : Desc (popKid s p cid) old d := desc_upd_above hwf p _ hd hpo.1
+    have ⟨dd, dk⟩ := desc_down w1 w2 w3 hm hc hd1 (by rw [hn1]; exact hpo.2) hdead
+    have hdt : d < t.actors.length := by rw [hnt]; exact hb.2 hpo.2
+    have hge : (spawn busy s p key eid sid b).get d = t.get d := by rw [hg]; exact c6 d (by omega) hdt
+    exact ⟨⟨by rw [hge]; exact dd.1, by rw [hge, hfl]; exact dd.2⟩, by rw [hge]; exact dk⟩
+  · have := hm.run u (hrun u hu h)
+    unfold R at *; rw [← hst1]; exact this
+  · have hrt := hrun u hu h
+    rw [hg, c6 u hne (by rw [hnt]; exact hu), hm.frame u hrt]
+    exact congrArg Actor.kids (get_upd_ne s _ hne)
+  · have hrt := hrun p hp h
+    rw [hg, spawnCore_kids t p key eid sid b hpt, hcid', hnt, hm.frame p hrt]
+    show dinsert cid s.actors.length ((s.upd p _).get p).kids = _
+    rw [get_upd_self s _ hp]
+
+/-! ### F50: `stop()` processes nothing of what is queued for the actor it stops -/
+
+theorem stop_own_queue (busy : Option Nat) (s : Sys) (x : Nat) (hx : x < s.actors.length) (hr : R s x) :
+    ((stop busy s x).get x).status = .stopped ∧ ((stop busy s x).get x).received = (s.get x).received := by
+  unfold stop
+  obtain ⟨f, hf⟩ : ∃ f, s.actors.length = f + 1 := ⟨s.actors.length - 1, by omega⟩
+  rw [hf]
+  unfold stopA
+  have hr0 : (s.get x).status = .running := hr
+  simp only [hr0, if_true]
+  have h0 : ((unregister (markStopped s x) x).get x).status = .stopped := markStopped_status s x hx
+  have hrec : ((unregister (markStopped s x) x).get x).received = (s.get x).received := by
+    show ((markStopped s x).get x).received = _
+    unfold markStopped; rw [get_upd_self s _ hx]
+  have q := ((quiet_foldl (fun acc (kv : String × Nat) => stopA busy f acc kv.2) (fun acc kv => quiet_stopA busy f acc kv.2)
+      (s.get x).kids (unregister (markStopped s x) x)).trans (quiet_clearKids _ x)).trans (quiet_stopTail busy _ x)
+  have ⟨f1, f2, _⟩ := q.2.2 x h0
+  exact ⟨f1, f2.trans hrec⟩
 
 end XSM.Actors
